@@ -21,6 +21,12 @@ CHECKS = {
         "text": "TLC proves Shown and SameAsScratch for the code-shaped two-pass diff (RenderImpl) on the closure (all histories of any length) of 1x3/1x4(/2x2, 2x3, 1x5, 1x6) screens and for run_render with a lossy frame queue (RenderLoop); the model is bound to the code by trace validation: thousands of real histories (all ordered pairs of TLC-generated surfaces on small screens, seeded random histories incl. clear/recreate/skip and ambiguous surfaces on screens up to 4x6, real run_render sessions with drops and resizes) are executed command by command on Screen.tla and must match the surface's denotation and the from-scratch screen; the model's predicted screen is compared too (drift).",
         "note": "Trusts Screen.tla as the reference terminal and the harness's projection of commands/cells (fixed tables, images by content). Known findings: overlapping image footprints; stale placements after a frame drop.",
     },
+    "C02": {
+        "level": "exploration",
+        "technique": "TLA+ generator of structured hostile vectors (family x parameter digit strings) replayed through the three real decoders in crash-isolated workers under three chunkings; TLC judge with arbitrary-precision digit-string arithmetic; tokeniser termination model-checked (liveness)",
+        "text": "Every vector of Hostile.tla (14 report families x 19 parameter strings per field incl. empty, zero, leading zeros, 2^16/2^32/2^64 boundaries, 20/40 digits; bare introducers; UTF-8 scalar boundaries; ill-formed and truncated UTF-8 in context) plus a seeded fragment/random corpus is decoded by TTYEventDecoder, TTYCommandDecoder and Utf8Decoder whole, byte-wise and randomly cut, in subprocess workers so that a panic, abort or hang is recorded as data. TLC judges each recording: survival, exhaustion, raw events non-empty and a subsequence of the input, scalar characters, and every numeric field against the BigNat value of the digit string that feeds it. Termination of the reschedule loop is a TLC liveness result on the code-shaped tokeniser (shared with C03).",
+        "note": "Bounded generation, not coverage-guided fuzzing; numeric rule accepts exact value, documented clamps, or non-recognition. Trusts the harness's projection of event fields to decimal strings.",
+    },
     "C03": {
         "level": "model_checking",
         "technique": "TLA+ code-shaped tokeniser (buffer, reversed reschedule stack, candidate) model-checked against a leftmost-longest specification for all inputs and all read partitions; generated vectors replayed through the hook; production decoders judged by TLC from logged acceptance tables",
